@@ -29,7 +29,12 @@ fn build_dir(job: &Value, scratch: &Path) -> std::io::Result<(PathBuf, PathBuf)>
     let root = scratch.join("envcase");
     let _ = std::fs::remove_dir_all(&root);
     std::fs::create_dir_all(&root)?;
-    let proj = root.join("proj");
+    // fs.odd_dir_name: the real directory has characters that mean something to glob / shells
+    let proj = if has(job, "odd_dir_name") {
+        root.join(job["odd_name"].as_str().unwrap_or("Proyecto [rev2]"))
+    } else {
+        root.join("proj")
+    };
     let src = Path::new(&repo_root()).join(job["project"].as_str().unwrap_or(""));
     if has(job, "absent_dir") {
         return Ok((proj.clone(), proj));
@@ -78,9 +83,10 @@ fn build_dir(job: &Value, scratch: &Path) -> std::io::Result<(PathBuf, PathBuf)>
         std::fs::create_dir_all(proj.join("CALENER-GT"))?;
         std::fs::write(proj.join("CALENER-GT").join("x.txt"), b"x")?;
     }
+    let pname = proj.file_name().unwrap().to_string_lossy().to_string();
     let given = match job["path_form"].as_str().unwrap_or("abs") {
-        "rel" => PathBuf::from("proj"),
-        "dot_rel" => PathBuf::from("./proj"),
+        "rel" => PathBuf::from(&pname),
+        "dot_rel" => PathBuf::from(format!("./{}", pname)),
         "trailing_slash" => PathBuf::from(format!("{}/", proj.display())),
         "symlink" => {
             let l = root.join("enlace");
@@ -188,18 +194,25 @@ pub fn run(ctx: &mut WorkerCtx, job: &Value) -> JobOutput {
     };
     let root = ctx.scratch.join("envcase");
     // ---- reference: the library, in process, on the same directory
-    let real_s = real.to_string_lossy().to_string();
+    // ("the same directory" = the same path string resolved from the same working directory)
+    let _ = &real;
+    let given_s = given.to_string_lossy().to_string();
+    let old_cwd = std::env::current_dir().ok();
+    let _ = std::env::set_current_dir(&root);
     let (reference, lib_stdout) = capture_stdout(|| {
         contain(|| {
-            let found = if real.exists() {
-                hulc::ctehexml::find_ctehexml(&real_s).ok().flatten()
+            let found = if Path::new(&given_s).exists() {
+                hulc::ctehexml::find_ctehexml(&given_s).ok().flatten()
             } else {
                 None
             };
-            let conv = hulc2model::collect_hulc_data(&real_s, use_extra, use_extra);
+            let conv = hulc2model::collect_hulc_data(&given_s, use_extra, use_extra);
             (found, conv)
         })
     });
+    if let Some(c) = old_cwd {
+        let _ = std::env::set_current_dir(c);
+    }
     let (found, conv) = match reference {
         Ok(x) => x,
         Err(p) => {
@@ -265,10 +278,8 @@ pub fn run(ctx: &mut WorkerCtx, job: &Value) -> JobOutput {
     } else {
         // thor takes the .ctehexml file
         let file = match &found {
-            Some(f) => {
-                // express it through the same path form as the directory
-                given.join(f.file_name().unwrap())
-            }
+            // already expressed through the same path form as the directory
+            Some(f) => f.clone(),
             None => given.join("no_existe.ctehexml"),
         };
         cmd.arg(&file).arg("-o").arg(&out_model);
